@@ -10,7 +10,7 @@ from vf.gen import lens as GL
 from vf.gen.build import build
 
 LAUNCH = GL.Profile(max_surfs=6, shapes=['standard'], allow_vignetting=True, keep_edges=True, rho_min=1.5,
-                    steep_prob=0.1, max_field_deg=25.0)
+                    steep_prob=0.1, max_field_deg=25.0, negative_fields=True)
 
 DISTS = ['line_x', 'line_y', 'positive_line_x', 'positive_line_y', 'random', 'uniform', 'hexapolar', 'cross', 'ring',
          'gq', 'gq_sym']
@@ -40,7 +40,7 @@ class C03(Check):
                    '(same sign, |coordinate| <= unvignetted): the property does not fix the law']
 
     def budget(self, tier):
-        return (60, 8) if tier == 'quick' else (1500, 16)
+        return (150, 8) if tier == 'quick' else (1500, 16)
 
     def strategy(self, tier):
         launch = st.fixed_dictionaries(dict(kind=st.just('launch'), spec=GL.lens_spec(LAUNCH), rays=rays_strategy(),
